@@ -177,6 +177,8 @@ pub struct Session {
     pub sender_panic: Option<String>,
     pub stuck: bool,
     pub tmp: Option<std::path::PathBuf>,
+    /// first packet of the sender that flute's own parser rejects
+    pub unparsable: Option<String>,
 }
 
 impl Drop for Session {
@@ -249,6 +251,73 @@ pub fn scheme_max_tl(o: &OtiP) -> u128 {
         Scheme::RsUs => 0xFFFF_FFFF,
     };
     (o.e as u128 * o.b as u128 * max_sbn).min(cap)
+}
+
+/// Stand-alone decoder of the fields the session model talks about (RFC 5651 LCT header, EXT_FDT,
+/// and the FEC payload IDs of RFC 5445 / 5510 / 5053 / 6330); shares no code with flute.
+/// Returns (toi, fdt instance id, sbn, esi, close object flag, payload offset).
+pub fn decode(d: &[u8], sch_of: &dyn Fn(u128) -> Option<Scheme>) -> Option<(u128, u32, u32, u32, bool, usize)> {
+    if d.len() < 4 {
+        return None;
+    }
+    let c = ((d[0] >> 2) & 3) as usize;
+    let s = ((d[1] >> 7) & 1) as usize;
+    let o = ((d[1] >> 5) & 3) as usize;
+    let h = ((d[1] >> 4) & 1) as usize;
+    let close = d[1] & 1 == 1;
+    let hdr = d[2] as usize * 4;
+    let cci = 4 * (c + 1);
+    let tsi = 4 * s + 2 * h;
+    let toil = 4 * o + 2 * h;
+    let mut off = 4 + cci + tsi;
+    if d.len() < off + toil || hdr > d.len() {
+        return None;
+    }
+    let mut toi: u128 = 0;
+    for b in &d[off..off + toil] {
+        toi = (toi << 8) | *b as u128;
+    }
+    off += toil;
+    let mut fdt = 0u32;
+    while off + 4 <= hdr {
+        let het = d[off];
+        let len = if het >= 128 { 4 } else { d[off + 1] as usize * 4 };
+        if len == 0 || off + len > hdr {
+            return None;
+        }
+        if het == 192 {
+            fdt = u32::from_be_bytes([0, d[off + 1] & 0x0F, d[off + 2], d[off + 3]]);
+        }
+        off += len;
+    }
+    let p = &d[hdr..];
+    let (sbn, esi, plen) = match sch_of(toi)? {
+        Scheme::NoCode | Scheme::Raptor => {
+            if p.len() < 4 {
+                return None;
+            }
+            (u16::from_be_bytes([p[0], p[1]]) as u32, u16::from_be_bytes([p[2], p[3]]) as u32, 4)
+        }
+        Scheme::Rs => {
+            if p.len() < 4 {
+                return None;
+            }
+            (u32::from_be_bytes([0, p[0], p[1], p[2]]), p[3] as u32, 4)
+        }
+        Scheme::RaptorQ => {
+            if p.len() < 4 {
+                return None;
+            }
+            (p[0] as u32, u32::from_be_bytes([0, p[1], p[2], p[3]]), 4)
+        }
+        Scheme::RsUs => {
+            if p.len() < 8 {
+                return None;
+            }
+            (u32::from_be_bytes([p[0], p[1], p[2], p[3]]), u16::from_be_bytes([p[6], p[7]]) as u32, 8)
+        }
+    };
+    Some((toi, fdt, sbn, esi, close, hdr + plen))
 }
 
 pub fn build(sp: &SessP) -> Result<Session, String> {
@@ -400,12 +469,12 @@ pub fn build(sp: &SessP) -> Result<Session, String> {
             }
         }
     }
-    // decode
-    let mut otis: BTreeMap<u128, Oti> = BTreeMap::new();
-    otis.insert(0, oti.clone());
+    // decode (stand-alone decoder; flute's own parser is only asked whether it accepts the packet)
+    let mut schemes: BTreeMap<u128, Scheme> = BTreeMap::new();
+    schemes.insert(0, sp.oti.sch);
     for o in &objs {
         if let Some(t) = o.toi {
-            otis.insert(t, make_oti(&o.oti).ok_or("bad-object-oti")?);
+            schemes.insert(t, o.oti.sch);
         }
     }
     let mut stream = Vec::new();
@@ -413,22 +482,27 @@ pub fn build(sp: &SessP) -> Result<Session, String> {
     let mut sched: Vec<(char, u128, u64)> = Vec::new();
     let mut fdt_payloads: BTreeMap<u32, (u64, BTreeMap<(u32, u32), Vec<u8>>)> = BTreeMap::new();
     let mut fdt_order: Vec<u32> = Vec::new();
+    let mut unparsable: Option<String> = None;
     for (d, t) in raw {
-        let (toi, fdt_id, sbn, esi, close, paylen) = {
-            let pkt = flute::core::alc::parse_alc_pkt(&d).map_err(|e| format!("own packet unparsable: {:?}", e))?;
-            let toi = pkt.lct.toi;
-            let o = otis.get(&toi).ok_or(format!("packet with unknown TOI {}", toi))?;
-            let pid = flute::core::alc::parse_payload_id(&pkt, o).map_err(|e| format!("payload id: {:?}", e))?;
-            let fid = pkt.fdt_info.as_ref().map(|f| f.fdt_instance_id).unwrap_or(0);
-            if toi == 0 {
-                let e = fdt_payloads.entry(fid).or_insert_with(|| {
-                    fdt_order.push(fid);
-                    (pkt.transfer_length.unwrap_or(0), BTreeMap::new())
-                });
-                e.1.entry((pid.sbn, pid.esi)).or_insert_with(|| d[pkt.data_payload_offset..].to_vec());
+        let (toi, fdt_id, sbn, esi, close, poff) =
+            decode(&d, &|t| schemes.get(&t).copied()).ok_or_else(|| "packet of the sender not decodable by the RFC decoder".to_string())?;
+        match flute::core::alc::parse_alc_pkt(&d) {
+            Ok(pkt) => {
+                if toi == 0 {
+                    let e = fdt_payloads.entry(fdt_id).or_insert_with(|| {
+                        fdt_order.push(fdt_id);
+                        (pkt.transfer_length.unwrap_or(0), BTreeMap::new())
+                    });
+                    e.1.entry((sbn, esi)).or_insert_with(|| d[poff..].to_vec());
+                }
             }
-            (toi, fid, pid.sbn, pid.esi, pkt.lct.close_object, d.len() - pkt.data_payload_offset)
-        };
+            Err(e) => {
+                if unparsable.is_none() {
+                    unparsable = Some(format!("toi {}: {:?}", toi, e));
+                }
+            }
+        }
+        let paylen = d.len() - poff;
         hash = absorb(hash, toi);
         hash = absorb(hash, fdt_id as u128);
         hash = absorb(hash, sbn as u128);
@@ -491,7 +565,7 @@ pub fn build(sp: &SessP) -> Result<Session, String> {
         tois.sort();
         fdts.push(FdtInst { id, len: *len, tois });
     }
-    Ok(Session { sp: sp.clone(), objs, stream, fdts, sched, hash, sender_panic, stuck, tmp })
+    Ok(Session { sp: sp.clone(), objs, stream, fdts, sched, hash, sender_panic, stuck, tmp, unparsable })
 }
 
 impl Session {
